@@ -249,6 +249,10 @@ def observe(m, refnames, roots):
             dyn.append([rp, True, "", entries])
         except Exception as e:
             dyn.append([rp, False, "walk:" + errkind(e), entries])
+        try:
+            root.clear_items()       # no live ItemSpace survives into the following edits (C07 / D16)
+        except Exception:
+            pass
     return {"static": static, "dyn": dyn, "p": pf, "p_skipped": skipped}
 
 
